@@ -17,6 +17,10 @@ func VerifC20vReadPackageInfo(directory string) (*PackageInfo, error) {
 	if err != nil {
 		return nil, err
 	}
+	if _, err := os.Stat(packageDir); os.IsNotExist(err) {
+		// no such directory: there is no package to speak of (a directory without a manifest is one, below)
+		return nil, fmt.Errorf("package directory '%s' not found", packageDir)
+	}
 	packageFilePath := filepath.Join(packageDir, PackageFileName)
 	info := &PackageInfo{FilePath: packageFilePath}
 	b, err := os.ReadFile(packageFilePath)
